@@ -243,6 +243,15 @@ def _missing(lo, hi, values):
     ref = np.minimum(ref, hi)
   if np.abs(o - ref).max() > 1e-5 * max(1, np.abs(v).max()):
     return "missing output constraint maps %s to %s, expected %s" % (v.tolist(), o.tolist(), ref.tolist())
+  # the constraint the real layer attaches to its learned missing output
+  layer = pl.PWLCalibration(input_keypoints=np.array([0.0, 1.0], dtype=np.float32), units=v.shape[1],
+                            output_min=lo, output_max=hi, impute_missing=True, missing_input_value=-1.0)
+  layer.build((None, 1))
+  c2 = layer.missing_output.constraint
+  o2 = v.astype(np.float64) if c2 is None else np.asarray(c2(tf.constant(v)), dtype=np.float64)
+  if np.abs(o2 - ref).max() > 1e-5 * max(1, np.abs(v).max()):
+    return "the layer's missing-output constraint maps %s to %s, expected %s within [%s, %s]" % (
+        v.tolist(), o2.tolist(), ref.tolist(), lo, hi)
   return None
 
 
